@@ -252,6 +252,30 @@ message M13 {}
 option (frep) = "r2";
 ''', ["message", "custom_option_set"], ["opts.proto"])
 
+# message literals whose LAST field is followed by a separator too (braces, angle brackets, nested)
+SKEL["litsep"] = ('''syntax = "proto2";
+import "opts.proto";
+message T {
+  option (mopt) = { leaf: 1; names: "two"; };
+  option (mopt2) = { sub < leaf: 2, > subs: [{ leaf: 3; }], };
+}
+''', ["message", "custom_option_set"], ["opts.proto"])
+
+# an empty statement right after a group / message body, and declarations after it (the trivia walker and the AST
+# must agree on how many declarations that is when later comments are placed)
+SKEL["grpsemi"] = ('''syntax = "proto2";
+message M {
+  optional group G = 1 {
+    optional int32 g = 2;
+  };
+  optional int32 a = 3;
+  message I {};
+  optional int32 b = 4;
+}
+message N {};
+message O {}
+''', ["message", "field", "group", "nested_message"], [])
+
 TOK = re.compile(r'''"(?:[^"\\\n]|\\.)*"|[0-9][0-9a-zA-Z_.]*|[A-Za-z_][A-Za-z0-9_]*|[=;{}\[\]()<>,.:\-]''')
 GAPNAMES = {"": "none", " ": "sp", "\n": "lf", "\n  ": "lf2", "\n    ": "lf4", "\n      ": "lf6", "\n\n": "blank"}
 
